@@ -41,6 +41,12 @@ theorem stmt_semi (c : DCfg) (fuel limit : Nat) (pre : List Tok) (s : Stmt) (any
     parseStmt c fuel limit (pre ++ semi :: anything) = .ok (s, semi :: anything) := by
   simpa using parseStmt_semi c anything fuel limit pre s [] h
 
+theorem isSemi_eq {t : Tok} (h : stmtClass.isSemi t = true) : t = semi := by
+  simp only [stmtClass, Tok.isSym] at h
+  split at h
+  · simp at h; subst h; rfl
+  · simp at h
+
 /-- **the modelled statement parser is local** on every statement text it accepts completely -/
 theorem stmt_local (c : DCfg) (fuel limit : Nat) (s : List Tok) (a : Stmt)
     (h : parseStmt c fuel limit s = .ok (a, [])) :
@@ -48,7 +54,7 @@ theorem stmt_local (c : DCfg) (fuel limit : Nat) (s : List Tok) (a : Stmt)
   intro fo hf
   rcases hf with rfl | ⟨t, r, rfl, ht⟩
   · simpa using h
-  · rw [SqlVerif.Props.C11Query.isSemi_eq ht]
+  · rw [isSemi_eq ht]
     exact stmt_semi c fuel limit s a r h
 
 /-- an accepted statement text begins a statement -/
